@@ -79,7 +79,10 @@ Record case := mk_case {
   c_plan : option plan;           (* the gateway's plan *)
   c_answer : option json;         (* the gateway's answer *)
   c_ref : option json;            (* the harness' reference answer *)
-  c_all_federated : bool          (* every object type of this federation is registered with FetchObjectFromKeys *)
+  c_all_federated : bool;         (* every object type of this federation is registered with FetchObjectFromKeys *)
+  c_in_scope : bool               (* the harness' reading of the premises of Props/C06.federation_transparent:
+                                     all objects federated, no directive on a field selection, every union selection
+                                     of the gateway's normalised query covers every member, the gateway answered *)
 }.
 
 Definition first_owner (l : list string) : option string := match l with x :: _ => Some x | [] => None end.
@@ -115,6 +118,15 @@ Definition check_case (c : case) : list nat :=
   (if c_all_federated c then
      if fed_ok g && match c_plan c with Some p => forallb (plan_closed g) (p_after p) | None => true end
      then [] else [5]
+   else []) ++
+  (* the premises of Props/C06.federation_transparent hold wherever the harness counts the case as covered by
+     the theorem, and there the model's gateway answer and the model's reference answer (with __typename on
+     union values) are the same map -- the instance of the theorem, recomputed *)
+  (if c_in_scope c then
+     if premises g (c_calls c) first_owner (c_query c) &&
+        opt_json_eqb (option_map norm (fed_exec w g first_owner false true (c_query c)))
+                     (option_map norm (eval_ref w g true fuel "Query" 0%Z (c_query c)))
+     then [] else [6]
    else []).
 
 Fixpoint mismatches_from_sparse (_ : nat) (cs : list (nat * case)) : list (nat * list nat) :=
